@@ -27,6 +27,7 @@ CONSTANTS
   MaxDiscs,     \* bound on the length of cur.discs
   VerifyArgs,   \* set of [res, aud, nonce]; res = [kind|->"const", key] or [kind|->"byiss", map]
   Ticks,        \* clock positions at which Verify may happen
+  NarrowSels(_, _), \* (creds, ghost) -> selections a holder may narrow the current presentation to (C15)
   KeyFam        \* key id -> "EC" | "ED" | "HMAC"
 
 VARIABLES plan, creds, ledger, cur, other, ghost, obs, nAdv, ph, hist
@@ -98,7 +99,7 @@ IssueRaw ==
                                    discs |-> {[id |-> d.id, dg |-> d.dg, dec |-> d.dec, path |-> "raw"] : d \in SeqToSet(cs.discs)}])
         /\ ledger' = ledger \cup {Signed(cs.key, cs.alg, jwt.id)}
         /\ cur' = MkMsg(jwt, cs.discs, NoKB, tm)
-        /\ ghost' = [raw |-> TRUE, c |-> n, devs |-> cs.devs, sel |-> NOSEL, kb |-> NoKB]
+        /\ ghost' = [raw |-> TRUE, c |-> n, devs |-> cs.devs, sel |-> NOSEL, kb |-> NoKB, nn |-> 0]
         /\ ph' = "adv"
         /\ hist' = Append(hist, [a |-> "IssueRaw", c |-> n, pl |-> cs.pl, discs |-> [i \in DOMAIN cs.discs |-> cs.discs[i].dg], pool |-> cs.pool, devs |-> cs.devs,
                                   key |-> cs.key, alg |-> cs.alg, exp |-> cs.exp, nbf |-> cs.nbf])
@@ -122,12 +123,29 @@ Present(pc, which) ==
   /\ pc.c \in DOMAIN creds
   /\ LET m == PresentMsg(pc) IN
      /\ ledger' = IF pc.kb = NoKB THEN ledger ELSE ledger \cup {Signed(pc.kb.key, pc.kb.alg, m.kb.id)}
-     /\ IF which = "cur" THEN cur' = m /\ ghost' = pc /\ other' = other
+     /\ IF which = "cur" THEN cur' = m /\ ghost' = [c |-> pc.c, sel |-> pc.sel, kb |-> pc.kb, nn |-> 0] /\ other' = other
                          ELSE other' = m /\ cur' = cur /\ ghost' = ghost
      /\ hist' = Append(hist, [a |-> "Present", as |-> which, c |-> pc.c, sel |-> pc.sel, kb |-> pc.kb])
   /\ UNCHANGED <<plan, creds, obs, nAdv>>
 PresentCur == ph = "present" /\ (\E pc \in PresChoices(creds) : Present(pc, "cur")) /\ ph' = IF WantOther THEN "present2" ELSE "adv"
 PresentOther == ph = "present2" /\ (\E pc \in PresChoices(creds) : Present(pc, "other")) /\ ph' = "adv"
+
+(***************************************************************************)
+(* Narrow (C15): an honest party feeds a presentation that has no KB-JWT   *)
+(* into a NEW holder (which knows only the presented disclosures) and      *)
+(* selects again.  Counted in nAdv and in ghost.nn: a behaviour is honest  *)
+(* when all its steps after Present were narrowings.                       *)
+(***************************************************************************)
+Narrow ==
+  /\ "Narrow" \in AdvMoves /\ ph = "adv" /\ nAdv < MaxAdv /\ nAdv = ghost.nn /\ "raw" \notin DOMAIN ghost /\ cur.kb = NoKB
+  /\ \E sel2 \in NarrowSels(creds, ghost) :
+       LET dgs == SelH(cur.jwt.pl, DMapS(cur.discs), sel2)
+           keep == SelectSeq(cur.discs, LAMBDA d : d.dg \in dgs)
+       IN /\ cur' = MkMsg(cur.jwt, keep, NoKB, cur.tm)
+          /\ ghost' = [ghost EXCEPT !.sel = sel2, !.nn = @ + 1]
+          /\ hist' = Append(hist, [a |-> "Narrow", sel |-> sel2])
+  /\ nAdv' = nAdv + 1
+  /\ UNCHANGED <<plan, creds, ledger, other, obs, ph>>
 
 (***************************************************************************)
 (* The adversary.  Every move rewrites `cur`; signing is possible only     *)
@@ -253,7 +271,7 @@ Verify ==
   /\ ph' = "done"
   /\ UNCHANGED <<plan, creds, ledger, cur, other, ghost, nAdv>>
 
-Next == Issue \/ IssueRefuse \/ IssueRaw \/ PresentCur \/ PresentOther \/ Adversary \/ Verify
+Next == Issue \/ IssueRefuse \/ IssueRaw \/ PresentCur \/ PresentOther \/ Narrow \/ Adversary \/ Verify
 Spec == Init /\ [][Next]_vars
 \* history is an observation variable: pure invariant runs hide it
 ViewNoHist == <<plan, creds, ledger, cur, other, ghost, obs, nAdv, ph>>
@@ -267,7 +285,7 @@ Cnf(c, claims) == IF creds[c].hk = "" THEN claims ELSE With(claims, "cnf", JObj(
 KBMatches(va, kb) == (va.aud = NONE /\ va.nonce = NONE) \/ (kb # NoKB /\ va.aud = JStr(kb.aud) /\ va.nonce = JStr(kb.nonce))
 \* the verification is one an honest party would make: untouched message, right issuer key, matching KB expectations, inside the window
 IsRaw == "raw" \in DOMAIN ghost
-HonestObs(o) == /\ nAdv = 0 /\ ~IsRaw /\ o.rk = creds[ghost.c].key
+HonestObs(o) == /\ nAdv = ghost.nn /\ ~IsRaw /\ o.rk = creds[ghost.c].key
                 /\ KBMatches(o.va, ghost.kb)
                 /\ (ghost.kb # NoKB => ghost.kb.key = creds[ghost.c].hk)
                 /\ TimeOf(o.m, o.now, o.now) = "accept"
@@ -311,6 +329,11 @@ Inv_IssueRel == \A c \in {x \in DOMAIN creds : "raw" \notin DOMAIN creds[x]} : L
              /\ IssueDecoys(cr.U, hkj, cr.jwt.pl, D, cr.nd > 0)
              /\ (cr.nd = 0 => Unmatched(cr.jwt.pl, D) = {})
 \* the constructive holder satisfies the relational clauses, and chooses exactly the oracle's disclosures (C06)
+\* C15: after any chain of narrowings the presentation carries exactly the disclosures a direct selection from the
+\* originally issued SD-JWT would carry
+Inv_C15 == (ph \in {"adv", "done"} /\ ~IsRaw /\ nAdv = ghost.nn) =>
+             LET cr == creds[ghost.c] IN
+             SeqToSet([i \in DOMAIN cur.discs |-> cur.discs[i].dg]) = SelH(cr.jwt.pl, DMap(cr.discs), ghost.sel)
 Inv_PresentRel == (ph \in {"adv", "done"} /\ nAdv = 0 /\ ~IsRaw) =>
              LET cr == creds[ghost.c]
                  inm == MkMsg(cr.jwt, WireSeq(cr.discs), NoKB, cr.tm)
